@@ -311,8 +311,12 @@ def gen_many_case(rng, direction, stale_heavy=None):
     # in half of the cases most of the destination is stale, so that the delete list alone is well over 64 KiB
     pick = rng.chance(1, 2)
     stale_heavy = pick if stale_heavy is None else stale_heavy
+    # in half of these trees every name is mostly 2- and 3-byte characters: a listing or a delete list that is read or
+    # written in pieces has a character across every piece boundary
+    uni = SplitMix.derive(rng.s, "many-unicode", 0).chance(1, 2)
+    fx, fy = ("\u00e9\u8a9e" * 25, "\u8a9e\u00e9" * (24 if stale_heavy else 5)) if uni else ("x" * 100, "y" * (120 if stale_heavy else 20))
     for i in range(n):
-        p = "dir-%03d-%s/file-%04d-%s" % (i % 150, "x" * 100, i, "y" * (120 if stale_heavy else 20))
+        p = "dir-%03d-%s/file-%04d-%s" % (i % 150, fx, i, fy)
         data = b"content %d" % i
         st = rng.pick(["absent", "same", "srcgone", "srcgone", "srcgone", "srcgone", "srcgone", "size"] if stale_heavy else ["absent", "absent", "absent", "same", "same", "size", "srcgone", "srcgone"])
         states[p] = st
